@@ -4,13 +4,15 @@
    = one call of DetailedPlacer::runShiftsOnCells as harness/dopt.cpp records it through the hook
    coloquinte_verif_shift_hook: state before the call, the network the C++ built, lemon's potentials and flows,
    the positions written.  Prints
-     "net=b sup=b cert=b dual=b flow=b cons=b range=b pos=b shiftok=b vb=N va=N narcs=N moved=b | detail"
+     "net=b sup=b cert=b dual=b flow=b cons=b range=b pos=b shiftok=b vb=N va=N narcs=N moved=b hyp=b | detail"
      net     the multiset of labelled arcs (src, tgt, cost) of the C++ equals that of ShiftLp.shift_net on the same state
      sup     same for the non-zero supplies
      cert    the extracted, proved ShiftLp.shift_cert_ok accepts lemon's potentials and flows on the MODEL's network
              (flows carried over arc by arc through the labels); dual / flow / cons / range are its four conjuncts
      pos     the positions written equal ShiftLp.positions_of (potential(cell) - potential(fixed))
-     shiftok Moves.shift_ok of the positions written; vb / va = x wirelength (ShiftLp.xvalue) before / after *)
+     shiftok Moves.shift_ok of the positions written; vb / va = x wirelength (ShiftLp.xvalue) before / after
+     hyp     the hypotheses of c05_certified_shift_never_worsens that concern the recorded state hold: every cell of the
+             rows has its x at its index of the x model (consistent) and every selected cell is a cell of the x model *)
 open Model_shift
 let rec pos_of_int n = if n = 1 then XH else if n land 1 = 0 then XO (pos_of_int (n lsr 1)) else XI (pos_of_int (n lsr 1))
 let z_of_int n = if n = 0 then Z0 else if n > 0 then Zpos (pos_of_int n) else Zneg (pos_of_int (-n))
@@ -82,13 +84,15 @@ let do_sl () =
   let sok = shift_ok d written in
   let vb = int_of_z (xvalue xm []) and va = int_of_z (xvalue xm written) in
   let moved = List.exists2 (fun c x -> match List.nth_opt pos c with Some p -> int_of_z p <> int_of_z x | None -> false) sel_i newx in
+  let hyp = List.for_all (fun c -> c >= 0 && c < np) sel_i &&
+            List.for_all (fun r -> List.for_all (fun c -> match List.nth_opt pos (int_of_nat c.p_id) with Some p -> int_of_z p = int_of_z c.p_x | None -> false) r.dr_cells) rows in
   let detail =
     (if net_ok then "" else Printf.sprintf " model-only-arcs %s impl-only-arcs %s"
         (String.concat "" (List.map show_key (List.filteri (fun i _ -> i < 4) only_m)))
         (String.concat "" (List.map show_key (List.filteri (fun i _ -> i < 4) only_c)))) ^
     (if pos_ok then "" else " potential-positions " ^ String.concat "," (List.map (fun (c, x) -> Printf.sprintf "%d:%d" (int_of_nat c) (int_of_z x)) want)) in
-  Printf.printf "net=%d sup=%d cert=%d dual=%d flow=%d cons=%d range=%d pos=%d shiftok=%d vb=%d va=%d narcs=%d moved=%d |%s\n"
-    (b2i net_ok) (b2i sup_ok) (b2i cert) (b2i c1) (b2i c2) (b2i c3) (b2i c4) (b2i pos_ok) (b2i sok) vb va narcs (b2i moved) detail
+  Printf.printf "net=%d sup=%d cert=%d dual=%d flow=%d cons=%d range=%d pos=%d shiftok=%d vb=%d va=%d narcs=%d moved=%d hyp=%d |%s\n"
+    (b2i net_ok) (b2i sup_ok) (b2i cert) (b2i c1) (b2i c2) (b2i c3) (b2i c4) (b2i pos_ok) (b2i sok) vb va narcs (b2i moved) (b2i hyp) detail
 
 let () =
   try while true do
